@@ -81,9 +81,9 @@ def core_trait():
     // number of keystream blocks left before the generator would repeat (None: unbounded / not representable)
     spec fn klimit(&self) -> Option<int>;
 ''', fns={
-        'remaining_blocks': FnC(ret='r', props=('C11',), ensures=[
-            ('exact', ('C11',), 'r is Some ==> self.klimit() is Some && r->Some_0 as int == self.klimit()->Some_0'),
-            ('none_only_if_unrepresentable', ('C11',), 'r is None ==> self.klimit() is None || self.klimit()->Some_0 > usize::MAX')]),
+        'remaining_blocks': FnC(ret='r', props=('C10', 'C11'), ensures=[
+            ('exact', ('C10', 'C11'), 'r is Some ==> self.klimit() is Some && r->Some_0 as int == self.klimit()->Some_0'),
+            ('none_only_if_unrepresentable', ('C10', 'C11'), 'r is None ==> self.klimit() is None || self.klimit()->Some_0 > usize::MAX')]),
         'process_with_backend': FnC(props=P, requires=['f.kpre()'], ensures=[
             ('post', P, 'f.kpost(old(self).kstep(), old(self).kabs(), final(self).kabs())'),
             ('step_kept', P, 'final(self).kstep() == old(self).kstep()')]),
